@@ -7,6 +7,136 @@ import SquidModel.Base.TokLemmas
 namespace SquidModel.Proxyp
 open SquidModel.Gen.Proxyp
 
+/-! ### version 1: the line -/
+namespace One
+
+/-- the maximal run of `interiorChars` octets within the first `maxInteriorLength` octets -/
+def run (buf : Bytes) : Bytes := (buf.take maxInteriorLength).takeWhile interiorChars.mem
+
+theorem takeLim_interior (buf : Bytes) : Tok.takeLim maxInteriorLength buf = buf.take maxInteriorLength := by
+  simp [Tok.takeLim, maxInteriorLength, Tok.npos]
+
+/-- closed form of the first statement of `One::Parse` -/
+theorem line_eq (buf : Bytes) :
+    line (Tok.ofBytes buf) =
+      if run buf = [] then (if buf = [] then .error .more else .error (.reject .v1MalformedHeader))
+      else
+        match buf.drop (run buf).length with
+        | [] => .error .more
+        | c :: rest =>
+          if c = 13 then
+            match rest with
+            | [] => .error .more
+            | d :: rest2 =>
+              if d = 10 then .ok (run buf, ⟨rest2, (run buf).length + 2⟩)
+              else .error (.reject .v1MalformedHeader)
+          else .error (.reject .v1MalformedHeader) := by
+  unfold line
+  rw [Tok.prefixOf_eq, takeLim_interior]
+  simp only [Tok.ofBytes]
+  change (match (if run buf = [] then none else some (run buf, (⟨buf.drop (run buf).length, 0 + (run buf).length⟩ : Tok))) with
+    | none => _ | some (interior, t1) => _) = _
+  by_cases hr : run buf = []
+  · simp only [hr, if_true, Tok.atEnd, List.isEmpty_iff]
+  · simp only [hr, if_false]
+    rw [Tok.skipChar_eq]
+    cases hd : buf.drop (run buf).length with
+    | nil => simp [Tok.atEnd]
+    | cons c rest =>
+      simp only
+      by_cases hc : c = 13
+      · simp only [hc, if_true]
+        rw [Tok.skipChar_eq]
+        cases rest with
+        | nil => simp [Tok.atEnd]
+        | cons d rest2 =>
+          simp only
+          by_cases hd2 : d = 10
+          · simp [hd2]
+          · simp [hd2, Tok.atEnd]
+      · simp [hc, Tok.atEnd]
+
+theorem takeWhile_take_append {α} (p : α → Bool) (L : Nat) (l s : List α)
+    (h : ((l.take L).takeWhile p).length < l.length) :
+    ((l ++ s).take L).takeWhile p = (l.take L).takeWhile p := by
+  induction l generalizing L with
+  | nil => simp at h
+  | cons b r ih =>
+    cases L with
+    | zero => simp
+    | succ n =>
+      simp only [List.cons_append, List.take_succ_cons, List.takeWhile_cons] at h ⊢
+      by_cases hb : p b = true
+      · simp only [hb, if_true, List.length_cons] at h ⊢
+        rw [ih n (by omega)]
+      · simp [hb]
+
+theorem run_ext (buf s : Bytes) (h : (run buf).length < buf.length) : run (buf ++ s) = run buf :=
+  takeWhile_take_append _ _ _ _ h
+
+theorem drop_nonempty_lt {α} {l : List α} {k : Nat} {c : α} {rest : List α} (h : l.drop k = c :: rest) : k < l.length := by
+  by_cases hk : k < l.length
+  · exact hk
+  · rw [List.drop_eq_nil_of_le (by omega)] at h; cases h
+
+/-- a definite answer of the line phase does not change when bytes are appended (the unparsed rest grows) -/
+theorem line_ext (buf s : Bytes) :
+    (∀ e, line (Tok.ofBytes buf) = .error (.reject e) → line (Tok.ofBytes (buf ++ s)) = .error (.reject e)) ∧
+    (∀ inter t3, line (Tok.ofBytes buf) = .ok (inter, t3) →
+      line (Tok.ofBytes (buf ++ s)) = .ok (inter, ⟨t3.buf ++ s, t3.parsed⟩)) := by
+  rw [line_eq, line_eq]
+  by_cases hr : run buf = []
+  · by_cases hb : buf = []
+    · subst hb; simp [hr]
+    · have hlt : (run buf).length < buf.length := by
+        rw [hr]; cases buf with
+        | nil => exact absurd rfl hb
+        | cons _ _ => simp
+      have hbs : buf ++ s ≠ [] := by
+        intro e; exact hb (List.append_eq_nil_iff.mp e).1
+      simp [hr, hb, run_ext buf s hlt, hbs]
+  · simp only [hr, if_false]
+    cases hd : buf.drop (run buf).length with
+    | nil => simp
+    | cons c rest =>
+      have hlt := drop_nonempty_lt hd
+      have hd' : (buf ++ s).drop (run buf).length = c :: (rest ++ s) := by
+        rw [List.drop_append_of_le_length (by omega), hd]; rfl
+      rw [run_ext buf s hlt]
+      simp only [hr, if_false, hd']
+      by_cases hc : c = 13
+      · simp only [hc, if_true]
+        cases rest with
+        | nil => simp
+        | cons d rest2 =>
+          simp only [List.cons_append]
+          by_cases hd2 : d = 10
+          · simp [hd2]
+          · simp [hd2]
+      · simp [hc]
+
+theorem line_ne_ub (buf : Bytes) : line (Tok.ofBytes buf) ≠ .error .ub := by
+  rw [line_eq]
+  repeat' split
+  all_goals simp
+
+/-- a definite answer of `One::Parse` does not change when bytes are appended -/
+theorem parse_ext (ipOf : IpOf) (buf s : Bytes) (h : parse ipOf buf ≠ .error .more) :
+    parse ipOf (buf ++ s) = parse ipOf buf := by
+  unfold parse at h ⊢
+  have hx := line_ext buf s
+  cases hl : line (Tok.ofBytes buf) with
+  | error e =>
+    cases e with
+    | more => rw [hl] at h; exact absurd rfl h
+    | reject e => rw [hx.1 e hl]
+    | ub => exact absurd hl (line_ne_ub buf)
+  | ok p =>
+    obtain ⟨inter, t3⟩ := p
+    rw [hx.2 inter t3 hl]
+
+end One
+
 /-! ### version 2 -/
 namespace Two
 
@@ -112,4 +242,87 @@ theorem parse_ext (buf s : Bytes) (h : parse buf ≠ .error .more) : parse (buf 
                     rw [List.take_append_of_le_length (by omega)]
 
 end Two
+
+/-! ### magic dispatch -/
+
+theorem skip_magic (m buf : Bytes) (hm : m ≠ []) :
+    (Tok.ofBytes buf).skip m = if m.isPrefixOf buf then some ⟨buf.drop m.length, m.length⟩ else none := by
+  unfold Tok.skip Tok.ofBytes Tok.consumeN
+  by_cases hp : m.isPrefixOf buf = true
+  · simp only [hp, if_true]
+    obtain ⟨t, rfl⟩ := List.isPrefixOf_iff_prefix.mp hp
+    have : m.length ≠ 0 := fun e => hm (List.eq_nil_of_length_eq_zero e)
+    simp [this]
+  · simp [hp]
+
+/-- closed form of `ProxyProtocol::Parse` -/
+theorem parse_eq (ipOf : IpOf) (buf : Bytes) :
+    parse ipOf buf =
+      if magic2.isPrefixOf buf then toRes magic2.length (Two.parse (buf.drop magic2.length))
+      else if magic1.isPrefixOf buf then toRes magic1.length (One.parse ipOf (buf.drop magic1.length))
+      else if buf.length ≥ magic2.length then .reject .badMagic else .more := by
+  unfold parse
+  simp only [skip_magic magic2 buf (by decide), skip_magic magic1 buf (by decide)]
+  by_cases h2 : magic2.isPrefixOf buf = true
+  · simp [h2]
+  · by_cases h1 : magic1.isPrefixOf buf = true
+    · simp [h2, h1]
+    · simp [h2, h1]
+
+theorem isPrefixOf_append_of {m buf : Bytes} (s : Bytes) (h : m.isPrefixOf buf = true) : m.isPrefixOf (buf ++ s) = true := by
+  obtain ⟨t, rfl⟩ := List.isPrefixOf_iff_prefix.mp h
+  exact List.isPrefixOf_iff_prefix.mpr ⟨t ++ s, by simp⟩
+
+theorem isPrefixOf_append_long {m buf : Bytes} (s : Bytes) (hlen : m.length ≤ buf.length) :
+    m.isPrefixOf (buf ++ s) = m.isPrefixOf buf := by
+  by_cases h : m.isPrefixOf buf = true
+  · rw [h, isPrefixOf_append_of s h]
+  · have : m.isPrefixOf (buf ++ s) ≠ true := by
+      intro h'
+      apply h
+      obtain ⟨t, ht⟩ := List.isPrefixOf_iff_prefix.mp h'
+      apply List.isPrefixOf_iff_prefix.mpr
+      have := List.prefix_of_prefix_length_le (⟨t, ht⟩ : m <+: buf ++ s) (List.prefix_append buf s) hlen
+      exact this
+    simp only [Bool.not_eq_true] at h this
+    rw [h, this]
+
+theorem toRes_ne_more {k : Nat} {r : Except Stop (Header × Nat)} (h : toRes k r ≠ .more) : r ≠ .error .more := by
+  intro e; subst e; exact h rfl
+
+/-- a buffer that starts with the v1 magic does not start with the v2 magic, whatever follows -/
+theorem magic1_excludes_magic2 (buf : Bytes) (h : magic1.isPrefixOf buf = true) : magic2.isPrefixOf buf = false := by
+  obtain ⟨t, rfl⟩ := List.isPrefixOf_iff_prefix.mp h
+  simp [magic1, magic2, List.isPrefixOf]
+
+/-- **extension stability**: a definite answer of `ProxyProtocol::Parse` does not change when more bytes arrive -/
+theorem parse_stable (ipOf : IpOf) (buf s : Bytes) (h : parse ipOf buf ≠ .more) :
+    parse ipOf (buf ++ s) = parse ipOf buf := by
+  rw [parse_eq] at h
+  rw [parse_eq, parse_eq]
+  by_cases h2 : magic2.isPrefixOf buf = true
+  · simp only [h2, if_true] at h ⊢
+    rw [isPrefixOf_append_of s h2]
+    simp only [if_true]
+    have hlen : magic2.length ≤ buf.length := (List.isPrefixOf_iff_prefix.mp h2).length_le
+    rw [List.drop_append_of_le_length hlen, Two.parse_ext _ _ (toRes_ne_more h)]
+  · simp only [h2] at h ⊢
+    by_cases h1 : magic1.isPrefixOf buf = true
+    · simp only [h1, if_true] at h ⊢
+      have h2' := magic1_excludes_magic2 (buf ++ s) (isPrefixOf_append_of s h1)
+      rw [h2', isPrefixOf_append_of s h1]
+      simp only [if_true]
+      have hlen : magic1.length ≤ buf.length := (List.isPrefixOf_iff_prefix.mp h1).length_le
+      rw [List.drop_append_of_le_length hlen, One.parse_ext _ _ _ (toRes_ne_more h)]
+      simp
+    · simp only [h1] at h ⊢
+      by_cases hl : buf.length ≥ magic2.length
+      · have hl1 : magic1.length ≤ buf.length := by
+          have : magic1.length ≤ magic2.length := by decide
+          omega
+        rw [isPrefixOf_append_long s hl, isPrefixOf_append_long s hl1]
+        have : magic2.length ≤ buf.length + s.length := by omega
+        simp [h2, h1, hl, this]
+      · simp [hl] at h
+
 end SquidModel.Proxyp
